@@ -141,6 +141,10 @@ def extract(verbose=False):
     d = os.path.join(BUILD, "facts", key)
     done = os.path.join(d, "DONE")
     if os.path.exists(done):
+        try:
+            os.utime(d, None)   # least-recently-used pruning below
+        except OSError:
+            pass
         return d
     lock = open(os.path.join(BUILD, "lock"), "w")
     fcntl.flock(lock, fcntl.LOCK_EX)
@@ -152,10 +156,10 @@ def extract(verbose=False):
             shutil.rmtree(d)
         os.makedirs(os.path.join(d, "mir"))
         os.makedirs(os.path.join(d, "pc_mir"))
-        # keep at most 6 cached states
+        # keep at most 80 cached states (about 10 MB each): the thorough tier revisits the same scratch trees from several packs
         facts_root = os.path.join(BUILD, "facts")
         olds = sorted((os.path.join(facts_root, x) for x in os.listdir(facts_root)), key=os.path.getmtime)
-        for o in olds[:-6]:
+        for o in olds[:-80]:
             if o != d:
                 shutil.rmtree(o, ignore_errors=True)
         tgt_exp = [os.path.join(BUILD, "target-exp-tc"), os.path.join(BUILD, "target-exp-sc")]
